@@ -27,6 +27,7 @@ type preq struct {
 	url                   []pv
 	body                  []pv   // form fields carried by the body
 	payload               []byte // raw body instead of form fields (line protocol, snappy protobuf)
+	ctHeader              string // Content-Type to send instead of the one `ctype` stands for (ctype must then be "o")
 	cc                    credCase
 	user                  string // the user the request's credentials are valid for ("" = nobody), by the property's reading
 	q0                    string // statements of the handlers that do not read `q`
@@ -96,6 +97,9 @@ func (e *env) firePreq(p *preq) response {
 		rd = strings.NewReader(encPairs(p.body))
 	}
 	req := httptest.NewRequest(p.method, p.target(), rd)
+	if p.ctHeader != "" {
+		ct = p.ctHeader
+	}
 	if ct != "" {
 		req.Header.Set("Content-Type", ct)
 	}
@@ -413,12 +417,45 @@ func paramOps(c *hx.Ctx, thorough bool) {
 			}
 		}
 	}
+	// OTLP: protobuf content type, the database from the URL
+	for _, path := range []string{"/api/v1/otlp/metrics", "/api/v1/otlp/traces", "/api/v1/otlp/logs"} {
+		for _, l := range wlists {
+			for _, cc := range users {
+				e.preqOp(c, &preq{method: "POST", pattern: path, path: path, ctype: "o", ctHeader: "application/x-protobuf", url: cat(mk("db", l), []pv{{"rp", "autogen"}}),
+					payload: []byte{}, cc: cc, user: cc.user})
+			}
+		}
+	}
 	// /api/v2/write: bucket = db/rp, with a `db` parameter next to it
+	defer logQueryOps(c, w, users)
 	buckets := [][]string{nil, {"db0/autogen"}, {"db1/autogen"}, {"db0/autogen", "db1/autogen"}, {"db1/autogen", "db0/autogen"}, {"db0"}, {"/autogen"}, {""}, {"nodb/x"}}
 	for _, bl := range buckets {
 		for _, dl := range [][]string{nil, {"db0"}, {"db1"}} {
 			for _, cc := range users {
 				e.preqOp(c, &preq{method: "POST", pattern: "/api/v2/write", path: "/api/v2/write", ctype: "n", url: cat(mk("db", dl), mk("bucket", bl)), payload: lp, cc: cc, user: cc.user})
+			}
+		}
+	}
+}
+
+// logQueryOps: the four log query routes of product type logkeeper take the database from the path
+// ({repository}); a `db` / `repository` parameter in the URL or the body must not matter.
+func logQueryOps(c *hx.Ctx, w *world, users []credCase) {
+	e := newEnv(w, cfgSpec{logKeeper: true, pprof: true}, false)
+	for _, leaf := range []string{"logs", "histogram", "analytics", "context"} {
+		pattern := "/repo/{repository}/logstreams/{logStream}/" + leaf
+		for _, repo := range []string{"db0", "db1"} {
+			path := "/repo/" + repo + "/logstreams/ls0/" + leaf
+			q, _, _ := shape("GET", path, "")
+			q.Del("db")
+			var base []pv
+			for _, k := range hx.SortedKeys(q) {
+				base = append(base, pv{k, q.Get(k)})
+			}
+			for _, noise := range [][]pv{nil, {{"db", "db0"}}, {{"db", "db1"}}, {{"repository", "db1"}, {"db", "db1"}}} {
+				for _, cc := range users {
+					e.preqOp(c, &preq{method: "GET", pattern: pattern, path: path, ctype: "n", url: cat(noise, base), cc: cc, user: cc.user, q0: readStmtOp})
+				}
 			}
 		}
 	}
